@@ -126,6 +126,12 @@ def run(ctx, model):
                 n += _judge(ctx, f, f"group({flag}) [{form}]", label, text, outs, pre, ref)
     ctx.floor("R-GROUP-CASE", n, 250, "capture/group cases")
 
+    # ---------------- R-GROUP-REAL (classifier interpreted; shared family of C02 R-COMPOSE)
+    from . import compose
+    recs = compose.run_all(ctx, model)
+    n_real = compose.judge_c08(ctx, model, recs)
+    ctx.floor("R-GROUP-REAL", n_real, 3000, "capture/group applications on library-built operands")
+
     # ---------------- R-NAME
     _names(ctx, model)
     # ---------------- R-BACKREF
